@@ -289,3 +289,25 @@ Proof.
           (fun s st t p => api_maxr_zero enum s st t p H P))))).
 Qed.
 Print Assumptions C06_api.
+
+(** the call with EVERY option omitted (strategy comp, strict_cc_count True, threshold 5000),
+    when 5000 is not binding (raising the threshold further does not change the result):
+    [] as soon as the host has more components than a non-empty pattern (the default the
+    mixtures meet!), all monomorphisms when it has fewer, the separating ones otherwise *)
+Theorem C06_default_call : forall (enum : list N -> list N -> list mapping) (H P : graph),
+  gwf H -> gwf P -> oracle_ok enum H P ->
+  (forall T', (5000 <= T')%N ->
+     find enum (Cfg 1 0 T' true false) H P = find enum (Cfg 1 0 5000 true false) H P) ->
+  exists R, find_api enum SDefault None None None None H P = Result R /\
+  let hcc := length (comps H) in
+  let pcc := length (comps P) in
+  NoDupA (@Permutation (N * N)) R /\
+  if (0 <? pcc) && (pcc <? hcc) then R = []
+  else if hcc <? pcc then
+    (forall m, In m R -> is_mono H P m) /\
+    (forall m, is_mono H P m -> exists m', In m' R /\ Permutation m m')
+  else
+    (forall m, In m R -> is_mono H P m /\ separating H P m) /\
+    (forall m, is_mono H P m -> separating H P m -> exists m', In m' R /\ Permutation m m').
+Proof. exact default_call_spec. Qed.
+Print Assumptions C06_default_call.
